@@ -24,7 +24,18 @@ var (
 	c12TCtx    = reflect.TypeOf(plush.HelperContext{})
 	c12TICtx   = reflect.TypeOf((*hctx.HelperContext)(nil)).Elem()
 	c12TErr    = reflect.TypeOf((*error)(nil)).Elem()
+	c12TAppCtx = reflect.TypeOf((*AppHelperContext)(nil)).Elem()
 )
+
+// AppHelperContext is an application-defined interface with the helper-context method set
+// (a different type than hctx.HelperContext).
+type AppHelperContext interface {
+	hctx.Context
+	Block() (string, error)
+	BlockWith(hctx.Context) (string, error)
+	HasBlock() bool
+	Render(s string) (string, error)
+}
 
 type c12Param struct {
 	name string
@@ -50,6 +61,8 @@ var c12Tails = []c12Tail{
 	{"hctx.HelperContext", []c12Param{{"hctx.HelperContext", c12TICtx, "ctx"}}, nil},
 	{"map+HelperContext", []c12Param{{"map[string]interface{}", c12TMap, "map"}, {"plush.HelperContext", c12TCtx, "ctx"}}, nil},
 	{"hctx.Map+hctx.HelperContext", []c12Param{{"hctx.Map", c12THMap, "map"}, {"hctx.HelperContext", c12TICtx, "ctx"}}, nil},
+	{"app-defined context interface", []c12Param{{"AppHelperContext", c12TAppCtx, "ctx"}}, nil},
+	{"map+app-defined context interface", []c12Param{{"map[string]interface{}", c12TMap, "map"}, {"AppHelperContext", c12TAppCtx, "ctx"}}, nil},
 	{"...int", nil, c12TInt},
 	{"...string", nil, c12TString},
 	{"...interface{}", nil, c12TIface},
@@ -260,7 +273,7 @@ func init() {
 			return s
 		},
 		Run:  c12Run,
-		Rule: "signatures built with reflect.FuncOf/MakeFunc (each is a recording helper): 0..2 (3 thorough) fixed parameters over {string,int,interface{},*struct,*other-struct} x tail {none, map[string]interface{}, hctx.Map, plush.HelperContext, hctx.HelperContext, map+context in both typings, ...int, ...string, ...interface{}} x result shapes {(), (T), (T,nil), (T,err), (nil error), (error)}; calls with every argument list of length 0..3 (4 thorough) over {nil, \"s\", 1, hash literal, array literal, true, typed nil pointer and non-nil pointer from the context}, each argument wrapped in a logging identity helper, with and without a block. Reference binder: too many / non-assignable => error naming the callee, function not invoked; otherwise invoked exactly once with every supplied value unchanged (nil => zero value of the parameter type, also in the variadic tail), omitted trailing map => non-nil empty map, omitted helper context => context whose HasBlock()/Block() reflect the call's block; argument log duplicate-free, in source order (a prefix when binding fails); first result is the value, non-nil trailing error fails the render. Omitted ordinary parameters are unspecified (either error or zero-fill accepted, supplied positions still checked). Non-trivial: at least one argument or an auto-supplied parameter.",
+		Rule: "signatures built with reflect.FuncOf/MakeFunc (each is a recording helper): 0..2 (3 thorough) fixed parameters over {string,int,interface{},*struct,*other-struct} x tail {none, map[string]interface{}, hctx.Map, plush.HelperContext, hctx.HelperContext, an application-defined interface with the same method set, map+context in all typings, ...int, ...string, ...interface{}} x result shapes {(), (T), (T,nil), (T,err), (nil error), (error)}; calls with every argument list of length 0..3 (4 thorough) over {nil, \"s\", 1, hash literal, array literal, true, typed nil pointer and non-nil pointer from the context}, each argument wrapped in a logging identity helper, with and without a block. Reference binder: too many / non-assignable => error naming the callee, function not invoked; otherwise invoked exactly once with every supplied value unchanged (nil => zero value of the parameter type, also in the variadic tail), omitted trailing map => non-nil empty map, omitted helper context => context whose HasBlock()/Block() reflect the call's block; argument log duplicate-free, in source order (a prefix when binding fails); first result is the value, non-nil trailing error fails the render. Omitted ordinary parameters are unspecified (either error or zero-fill accepted, supplied positions still checked). Non-trivial: at least one argument or an auto-supplied parameter.",
 		Bound: func(th bool) string {
 			if th {
 				return "<=3 fixed parameters, <=4 arguments"
